@@ -229,11 +229,11 @@ func RID() *rapid.Generator[string] {
 		n := rapid.IntRange(1, 4).Draw(t, "ntok")
 		toks := make([]string, n)
 		for i := range toks {
-			toks[i] = rapid.SampledFrom([]string{"a", "b", "svc", "user", "42", "$x", "a$b", "~", "{}", "x-y_z"}).Draw(t, "tok")
+			toks[i] = rapid.SampledFrom([]string{"a", "b", "svc", "user", "42", "$x", "a$b", "~", "{}", "x-y_z", "a\"b", "\\", "<&'"}).Draw(t, "tok")
 		}
 		s := strings.Join(toks, ".")
 		if rapid.IntRange(0, 4).Draw(t, "q") == 0 {
-			s += "?" + rapid.SampledFrom([]string{"", "a=b", "q=1&r=2", "x=é", "?", "a.b=*>"}).Draw(t, "query")
+			s += "?" + rapid.SampledFrom([]string{"", "a=b", "q=1&r=2", "x=é", "?", "a.b=*>", "q=\"x\"", "a\nb", "\\", "\x01", "a b"}).Draw(t, "query")
 		}
 		return s
 	})
